@@ -12,7 +12,7 @@ for d in sorted(glob.glob(os.path.join(V, "seeded", "C*"))):
     if det:
         sigs = [l for l in det[0]["lines"] if l.strip().startswith("sig=")]
         sig = sigs[0].strip()[4:].split(" detail=")[0] if sigs else ""
-    rows.append((m["property"], "yes" if m.get("confirmed") else "see note", "quick" if tier == "quick" else ("thorough only" if tier == "thorough" else "NOT DETECTED"),
+    rows.append((os.path.basename(d), "yes" if m.get("confirmed") else "see note", "quick" if tier == "quick" else ("thorough only" if tier == "thorough" else "NOT DETECTED"),
                  sig[:70], (m.get("summary") or "")[:160].replace("|", "/"), (m.get("needs") or "")[:140].replace("|", "/"), m.get("history", "")))
 with open(os.path.join(V, "docs", "SEEDED.md"), "w") as f:
     f.write("# Seeded changes (independent sub-agents, property text only) and the checks that catch them\n\n"
